@@ -53,8 +53,22 @@ def readReason (st : St) (k : Key) (lo hi : Int) (asc : Bool) (rows : List Pt) :
       if st.worlds.all fun h => deletedAfterWrite h k p.1 p.2 then
         if st.win.victims.contains (k, p.1) then s!"delete-overlaps-inflight-snapshot:s{k.series}f{k.field}t{p.1}"
         else s!"acknowledged-delete-lost:s{k.series}f{k.field}t{p.1}"
+      else if st.win.retryVictims.contains (k, p.1) then
+        s!"write-after-failed-snapshot-lost:s{k.series}f{k.field}t{p.1}"
       else s!"value-never-written-or-stale:s{k.series}f{k.field}t{p.1}"
-    | none => "acknowledged-write-lost:"
+    | none =>
+      -- which acknowledged cell is missing?
+      let missing := st.worlds.findSome? fun h0 => h0.findSome? fun
+        | .put e =>
+          if decide (e.key = k) && decide (lo ≤ e.ts) && decide (e.ts ≤ hi)
+              && (st.worlds.all fun h => (cell h k e.ts).isSome) && !(rows.any fun p => p.1 == e.ts)
+          then some e.ts else none
+        | _ => none
+      match missing with
+      | some t =>
+        if st.win.retryVictims.contains (k, t) then s!"write-after-failed-snapshot-lost:s{k.series}f{k.field}t{t}"
+        else s!"acknowledged-write-lost:s{k.series}f{k.field}t{t}"
+      | none => "acknowledged-write-lost:"
 
 def closeWin (w : Window) : Window := w.crash
 
@@ -79,8 +93,10 @@ def checkFrom (st : St) : List (Op × Obs) → Option String
                  else some (readReason st k lo hi asc r)
     | _ => some "read-failed:"
   | (.snapBegin, o) :: tr =>
-    if o = .ok then
-      checkFrom { st with prev := none, win := { st.win with isOpen := true, snapPuts := st.win.hotPuts, hotPuts := [] } } tr
+    if o = .ok then checkFrom { st with prev := none, win := st.win.begin } tr
+    else checkFrom { st with prev := none } tr
+  | (.snapFail, o) :: tr =>
+    if o = .failed then checkFrom { st with prev := none, win := st.win.fail } tr
     else checkFrom { st with prev := none } tr
   | (.snapTo p, _) :: tr =>
     checkFrom { st with prev := none, win := st.win.snapTo p } tr
